@@ -46,6 +46,8 @@ def check(repo, col, tier):
     col.rule("R-C08-rows", "one row of input values per row index", 4)
     input_rows(repo, col, "R-C08-rows")
     externals_in_view(repo, col, "R-C08-rows")
+    col.rule("R-C08-initial", "recorded currents at t = 0 belong to the initial state of the run", 2)
+    initial_currents(repo, col, "R-C08-initial")
     cl = idx.compute_slots(repo, col, "R-C08-space", emit=("jaxedges", "rec_index", "external_inds"))
     _space_uses(repo, col, cl)
     _order(repo, col)
@@ -246,6 +248,27 @@ def _space_uses(repo, col, cl: Classifier):
             uses_index = any(x.op == "attr" and x.name == "index" for x in v.walk())
             col.check(uses_index, R, fi, f"add_clamps: {unparse(s.node)} takes the row labels of the handed-over table",
                       "row labels (.index) of the table", f"stores {v.short()}", node=s.node)
+
+
+def initial_currents(repo, col, R):
+    """Column 0 of a recorded membrane / synaptic current is the current AT THE INITIAL STATE of the run: in get_all_states the
+    currents are computed from the states after the initial states given by trainables / data_set (`pstate`) were written into them,
+    never from the table values that those overrides replace."""
+    fi = repo.method("Module", "get_all_states")
+    ex = idx.expander(repo, fi)
+    pst = fi.params[1] if len(fi.params) > 1 else None
+    ov = [s_ for s_ in ex.stores if s_.kind == "sub" and any(g.op == "loop" and T.find(g, lambda x: x.op == "param" and x.name == pst) is not None for g in s_.guards)
+          and T.find(s_.value, lambda x: x.op == "mcall" and x.name in ("set", "add")) is not None]
+    calls = [c for c in ex.calls if isinstance(c.func, ast.Attribute) and c.func.attr in ("_channel_currents", "_synapse_currents")]
+    if not ov or not calls:
+        col.unk(R, fi, "initial currents are computed from the overridden initial states", f"{len(ov)} override stores, {len(calls)} current computations found", node=fi.node)
+        return
+    last_ov = max(s_.node.lineno for s_ in ov)
+    for c in calls:
+        col.check(c.lineno > last_ov, R, fi, f"{c.func.attr}: the initial current is computed after the initial states of the run were written",
+                  "after the loop over pstate",
+                  f"`{unparse(c)[:70]}` runs before the initial states given through make_trainable / data_set are written: the recorded current at t = 0 "
+                  f"(and the current a dependent mechanism starts from) belongs to the table values, not to the run", node=c)
 
 
 def externals_in_view(repo, col, R):
